@@ -21,7 +21,7 @@ void vh_mul_case(int route, int m, int l, int n, int kindA, int kindB, int param
   if (route == R_NAIVE_T || route == R_VA || route == R__M4RM) { clear = param & 1; param >>= 1; acc = !clear; }
   int need_c = acc || !cnull || route == R_NAIVE_T || route == R_VA || route == R__M4RM || route == R_MULEVEN || route == R_DJB;
   mzd_t *C = need_c ? vh_new(m, n) : NULL;
-  if (C) { if (acc) vh_fill_kind(C, 0); else if (route != R_DJB) vh_fill_kind(C, vh_randint(0, 1) ? 0 : 2); }
+  if (C) { if (acc) vh_fill_kind(C, 0); else if (route != R_DJB) vh_fill_kind(C, vh_randint(0, 3) ? 0 : 2); }
   mzd_t *BT = NULL;
   if (route == R_NAIVE_T) {
     /* the route takes B pre-transposed; build it bit by bit, independent of mzd_transpose */
@@ -156,7 +156,8 @@ int fam_mul(const vh_args_t *a) {
           vh_case_seed(a, sidx);
           VH_CASE(sidx)
           int sq = (im == il && il == in) && vh_randint(0, 1);
-          vh_mul_case(sq ? (acc ? R_ADDSQR : R_SQR) : (acc ? R_ADDMUL : R_MUL), SD[im], SD[il], SD[in], 0, 0, 64, vh_randint(0, 1));
+          int mp = !sq && ((im + 2 * il + in) % 3 == 0); /* a third through the multi-core front ends (the plain routes in builds without OpenMP) */
+          vh_mul_case(sq ? (acc ? R_ADDSQR : R_SQR) : mp ? (acc ? R_ADDMP : R_MP) : (acc ? R_ADDMUL : R_MUL), SD[im], SD[il], SD[in], 0, 0, 64, vh_randint(0, 2) == 0);
           VH_CASE_END
         }
   return 0;
